@@ -62,6 +62,8 @@ def make_case(kind, spec, must_reject, what):
     if o[0] == "ok":
         if must_reject:
             c.fail("accepted", f"a spec with {what} was accepted")
+            if what == "an argument for a callable without parameters":
+                c.tags = getattr(c, "tags", set()) | {"arg_for_nullary"}
         try:
             impl = ["ok", encode(o[1])]
         except Exception:  # noqa: BLE001
@@ -95,7 +97,13 @@ def inject_cond(r, spec):
     """(mutated spec, what) from a well-formed single-leaf condition spec {key: val}"""
     (key, val), = spec.items()
     toks = key.split(".")
-    choice = r.choice(["datum", "preproc", "preproc-na", "callable", "arity-long", "arity-short", "several", "typename", "shape"])
+    choice = r.choice(["datum", "preproc", "preproc-na", "map-on-non-map", "callable", "arity-long", "arity-short", "several", "typename", "shape"])
+    if choice == "map-on-non-map":
+        # a callable that only mapping-valued classes offer, on a class that does not
+        pre = r.choice([["index"], ["value", "length"], ["value", "dtype"], ["key", "len"], ["key", "type"], ["Index"]])
+        name = r.choice(["keys_contain", "allowed_keys", "required_keys", "items_contain", "keys_is_instance", "keys_equal_to",
+                         "keys_contain_any_of", "forbidden_keys"])
+        return {".".join(pre + [name]): val}, "a mapping callable on a class without mapping callables"
     if choice == "preproc-na":
         # a pre-processor that exists, on the one datum kind that has none
         pre = r.choice(["length", "len", "dtype", "type", "LENGTH", "Len", "DType"])
@@ -118,7 +126,11 @@ def inject_cond(r, spec):
     if choice == "typename":
         return {toks[0] + ".dtype.equal_to": r.choice(["integer", "strr", "number", 5, None])}, "an unknown type name"
     # wrong argument shape for the signature branch
-    sh = r.choice(["multi-scalar", "varpos-scalar", "varkw-list"])
+    sh = r.choice(["multi-scalar", "varpos-scalar", "varkw-list", "too-many-positionals", "positional-for-none"])
+    if sh == "too-many-positionals":
+        return {"value.in_range": r.choice([[1, 2, 3], (0, 1, 2, 3)])}, "more positional arguments than parameters"
+    if sh == "positional-for-none":
+        return {"value.truthy": r.choice([[1], {"a": 1}, [[]], "x"])}, "an argument for a callable without parameters"
     if sh == "multi-scalar":
         return {"value.in_range": r.choice([5, "a", None])}, "a scalar for a multi-parameter callable"
     if sh == "varpos-scalar":
@@ -219,6 +231,11 @@ def mutate(r, v, depth=0):
             return tuple(out) if isinstance(v, list) else list(out)
         return out if isinstance(v, list) else tuple(out)
     return r.choice(JUNK)
+
+
+def matches_known(entry, case, name, detail):
+    m = entry.get("match", {})
+    return m.get("tag") in getattr(case, "tags", set()) and m.get("predicate", name) == name
 
 
 def generate(rng, n, tier):
